@@ -142,6 +142,9 @@ class CasJsonDeserializer:
 
         feature_structures = {}
         json_feature_structures = data.get(FEATURE_STRUCTURES_FIELD)
+        # Ids of byte arrays which were parsed ahead of their turn because a sofa refers to them
+        fetched_ahead = set()
+
         if isinstance(json_feature_structures, list):
 
             def parse_and_add(json_fs_):
@@ -159,11 +162,13 @@ class CasJsonDeserializer:
                         for json_fs_2 in json_feature_structures:
                             if json_fs_2.get(ID_FIELD) == sofa_byte_array_ref:
                                 parse_and_add(json_fs_2)
+                                fetched_ahead.add(sofa_byte_array_ref)
                     fs_id = json_fs.get(ID_FIELD)
                     fs = self._parse_sofa(cas, fs_id, json_fs, feature_structures)
                     feature_structures[fs.xmiID] = fs
             for json_fs in json_feature_structures:
-                if json_fs.get(TYPE_FIELD) != TYPE_NAME_SOFA:
+                # What was fetched ahead for a sofa must not be parsed into a second object
+                if json_fs.get(TYPE_FIELD) != TYPE_NAME_SOFA and json_fs.get(ID_FIELD) not in fetched_ahead:
                     parse_and_add(json_fs)
 
         if isinstance(json_feature_structures, dict):
@@ -181,11 +186,13 @@ class CasJsonDeserializer:
                     sofa_byte_array_ref = json_fs.get(REF_FEATURE_PREFIX + FEATURE_BASE_NAME_SOFAARRAY)
                     if sofa_byte_array_ref and not feature_structures.get(sofa_byte_array_ref):
                         parse_and_add(sofa_byte_array_ref, json_feature_structures.get(str(sofa_byte_array_ref)))
+                        fetched_ahead.add(sofa_byte_array_ref)
                     fs_id = int(fs_id)
                     fs = self._parse_sofa(cas, fs_id, json_fs, feature_structures)
                     feature_structures[fs.xmiID] = fs
             for fs_id, json_fs in json_feature_structures.items():
-                if json_fs.get(TYPE_FIELD) != TYPE_NAME_SOFA:
+                # What was fetched ahead for a sofa must not be parsed into a second object
+                if json_fs.get(TYPE_FIELD) != TYPE_NAME_SOFA and int(fs_id) not in fetched_ahead:
                     parse_and_add(fs_id, json_fs)
 
         for post_processor in self._post_processors:
